@@ -2,7 +2,8 @@
 from __future__ import annotations
 
 from sfv.framework import Ctx, Property
-from sfv.rt import schedprop
+from sfv.rt import protomon, schedprop
+from sfv.rt.par import pmap
 from sfv.translate import schedguards
 
 SCHED_RULE = ("scenarios on the REAL DefaultScheduler with run-time fake connectors under the controlled event loop: 1..3 deployments x 1..3 "
@@ -33,9 +34,12 @@ class C10(Property):
     title = "The scheduler never over-allocates a location"
     lean_targets = ["SFV.Props.C10", "SFV.Model.SchedProto"]
     props_files = ["SFV/Props/C10.lean"]
-    drivers = ["Drivers/C10.lean"]
+    drivers = ["Drivers/C10.lean", "Drivers/C10Hyp.lean", "Drivers/C10Proto.lean"]
     translators = [schedguards.generate]
-    rule = SCHED_RULE
+    rule = SCHED_RULE + (" Protocol monitor: real workflows with injected failures and recoveries (pipelines, scatter, diamond, loop; soft / "
+                         "fail-stop failures in the schedule, transfer and execute phases, exhausted retries, no failure manager) run on a "
+                         "recording subclass of DefaultScheduler; the observed sequence of allocations and notifications of every run must "
+                         "be accepted step by step by Ledger.OpOk (the hypothesis HistoryOk of the theorems), evaluated by the Lean driver.")
     trusted_base = SCHED_TRUSTED
     technique = ("Lean 4: inductive invariant of the scheduler's bookkeeping for all histories/configurations under the engine protocol, "
                  "negative witness without it; guards translated from notify_status/_get_running_jobs/_is_valid; differential "
@@ -56,6 +60,42 @@ class C10(Property):
 
     def explore(self, ctx: Ctx) -> None:
         schedprop.explore(ctx, self.pid)
+        if ctx.mode == "check":
+            self._protocol_monitor(ctx)
+
+    def _protocol_monitor(self, ctx: Ctx) -> None:
+        """is the hypothesis of the theorems what the engine does? observe real recovery runs"""
+        cases = protomon.gen_cases(ctx.rng, ctx.tier == "quick")
+        if ctx.tier == "quick":
+            keep = ("schedule", "execute", "failstop", "exhausted", "scatter")
+            cases = [c for c in cases if any(k in c["name"] for k in keep)][:4]
+        lines, owners = [], []
+        for case, status, r in pmap(protomon.run_observed, cases, timeout=240, workers=5):
+            if status != "ok" or not r or r.get("outcome") in ("hang", "harness-error", None):
+                ctx.notes.append(f"protocol monitor: run {case['name']} gave no result ({status}); not counted")
+                ctx.count("protocol-monitor:no-result")
+                continue
+            ids: dict[str, int] = {}
+            n_alloc = sum(1 for e in r["events"] if e[0] == "alloc")
+            n_realloc = n_alloc - len({e[1] for e in r["events"] if e[0] == "alloc"})
+            ctx.case({"protocol-monitor": case["name"], "outcome": r["outcome"], "events": len(r["events"]), "re-allocations": n_realloc},
+                     ("proto", case["name"], repr(r["events"])) if n_realloc else None, "protocol-monitor")
+            ctx.count("protocol-monitor:events", len(r["events"]))
+            ctx.count("protocol-monitor:re-allocations", n_realloc)
+            lines.append("reset")
+            owners.append((case, r, None))
+            for e in r["events"]:
+                j = ids.setdefault(e[1], len(ids))
+                lines.append(f"alloc {j}" if e[0] == "alloc" else f"notify {j} {e[2]}")
+                owners.append((case, r, e))
+        outs = ctx.lean("Drivers/C10Proto.lean", lines)
+        seen = set()
+        for o, (case, r, e) in zip(outs, owners):
+            if o != "ok" and case["name"] not in seen:
+                seen.add(case["name"])
+                ctx.disagree("engine notification sequence rejected by the protocol (hypothesis HistoryOk of never_overallocated_partial / "
+                             "all_done_zero_partial)", f"run {case['name']}: event {e} is not allowed in the state reached; full sequence {r['events']}",
+                             {"protocol_case": case, "events": r["events"]})
 
     def replay(self, ctx: Ctx, data) -> None:
         schedprop.replay(ctx, self.pid, data)
